@@ -6,7 +6,7 @@ META = {
              'labtech line of the save path (LINE failpoint with action SIGKILL; first pass counts the lines), each '
              'write() call boundary of metadata and data file and a mid-write split (first half written), with the '
              'buffer either flushed+fsynced or abandoned; SIGTERM instead of SIGKILL on a sample, and the real terminate-on-second-interrupt path (fork worker parks at line k of its save, the caller receives two real SIGINTs, Runner.stop() terminates it - also in a program whose inherited SIGTERM handler calls sys.exit, where the terminated worker must clean up after itself), and SIGTERM delivered to a fork worker whose program installed a SIGTERM handler calling sys.exit (the worker unwinds through the exception handlers of labtech); x cache format '
-             '{pickle, json} x {first save, overwrite} x shape {small, big} x victim {process running the serial '
+             '{pickle, json; for the graceful terminations also a pickle-cached type whose post_init rewrites a parameter} x {first save, overwrite} x shape {small, big} x victim {process running the serial '
              'backend (a forked sacrificial copy of the harness; a fresh interpreter on a sample), fork worker whose '
              'parent survives}. The verdict is taken afterwards by a process that never ran the save: is_cached, '
              'cached_tasks and run_tasks of the victim entry, plus the bystander entry saved just before. Oracle: not '
@@ -54,7 +54,7 @@ def data_state(store, key, cache):
             out['metadata'] = 'complete'
         except ValueError:
             out['metadata'] = 'partial'
-    dp = os.path.join(d, 'data.pickle' if cache == 'NS' else 'data.json')
+    dp = os.path.join(d, 'data.pickle' if cache in ('NS', 'NSP') else 'data.json')
     if not os.path.exists(dp):
         out['data'] = 'absent'
     elif os.path.getsize(dp) == 0:
@@ -94,7 +94,8 @@ def run_case(case, rep=None, count_only=False):
     try:
         def val(name, gen):
             t = spec['tasks'][name]
-            return combine(t['type'], name, t['p'], [], ctx_digest({}), gen)
+            pv = t['p'].strip().lower() if (t['type'] == 'NSP' and isinstance(t['p'], str)) else t['p']
+            return combine(t['type'], name, pv, [], ctx_digest({}), gen)
 
         def lab():
             return labtech.Lab(storage=make_storage('faulty', store), runner_backend='serial', context={})
@@ -332,6 +333,16 @@ def enumerate_cases(rep, stride, n_fresh):
                             for op in ('kill-write', 'kill-midwrite'):
                                 for sync in (False, True):
                                     cases.append(dict(cfg, kill={'kind': 'storage', 'op': op, 'j': j, 'file': fn, 'sync': sync}))
+    # a task type whose post_init rewrites a parameter (a key derived again later differs from the one the entry was
+    # written under): graceful terminations only, where labtech's own clean-up runs
+    for mode in ('first', 'overwrite'):
+        cfg = {'cache': 'NSP', 'mode': mode, 'shape': 'small', 'backend': 'fork'}
+        c = run_case(dict(cfg, backend='serial', kill={'kind': 'line', 'k': None}), count_only=True)
+        n = c['n_lines'] or 0
+        for k in range(2, n + 1, 3 if stride == 1 else 9):
+            cases.append(dict(cfg, kill={'kind': 'line', 'k': k, 'sig': 'term', 'handler': True}))
+        for k in range(2 * n // 3, n + 1, 4 if stride == 1 else 12):
+            cases.append(dict(cfg, kill={'kind': 'line', 'k': k, 'sig': 'park', 'handler': True}))
     fresh = [dict(c, fresh_interpreter=True) for c in cases if c['backend'] == 'serial'][::max(1, len(cases) // max(1, n_fresh))][:n_fresh]
     return cases + fresh
 
